@@ -51,7 +51,7 @@ def gen(r, tier, i):
     move = None
     if r.random() < 0.5 and len(nodes) > 3:
         move = [list(r.choice([q for q in nodes if q])), list(r.choice(branches))]
-    return {'tree': d, 'path': p, 'a': list(a), 'b': list(b), 'rel': rel, 'v': r.randint(100, 999), 'move': move}
+    return {'tree': d, 'path': p, 'a': list(a), 'b': list(b), 'rel': rel, 'v': r.randint(100, 999), 'move': move, 'attach': r.random() < 0.35}
 
 
 def model_delete(d, p):
@@ -197,7 +197,12 @@ def run(spec):
             parent = nodes[src[:-1]]
             fake_process = types.SimpleNamespace(topology={'T': dst}, outer=s)
             try:
-                parent.move({'source': (src[-1],), 'target': ('T',)}, fake_process)
+                if spec.get('attach') and dst:
+                    # re-attach the detached subtree with Store.add_node and a path of several keys, from the root
+                    node = parent.inner.pop(src[-1])
+                    s.add_node(dst + (src[-1],), node)
+                else:
+                    parent.move({'source': (src[-1],), 'target': ('T',)}, fake_process)
                 moved = True
             except Exception as e:
                 moved = False
